@@ -3575,6 +3575,185 @@ def parser_contracts():
     return out
 
 
+# ====================================================== header dispatchers (round 7) ==
+# StreamsInfo ::= [PackInfo(0x06 ..)] [UnpackInfo(0x07 ..)] [0x08 SubStreamsInfo] 0x00
+# Header      ::= [0x02 ArchiveProperties] [0x03 StreamsInfo] [0x04 StreamsInfo] [0x05 FilesInfo] 0x00          (7zFormat.txt)
+# end header  ::= [0x17 EncodedHeader -> the rest is read from the decoded stream] (0x01 Header | 0x00)
+# The dispatchers are verified against this grammar over ANY stream: which section parser runs, at which stream position (the
+# PackInfo / UnpackInfo parsers re-read their id byte, the SubStreamsInfo / FilesInfo / StreamsInfo / Header parsers start after
+# it), in which order, where the stream stands afterwards and exactly when the section is refused.  A section parser is seen
+# through a CALL-SITE VIEW: it is recorded as a ghost event (name, stream, position), leaves the stream at `end_of_<name>(s, p)`
+# and refuses exactly when `<name>_refuses(s, p)` -- both uninterpreted: every deterministic parser satisfies the view, so the
+# verified contract of _parse_pack_info (position = end of the PackInfo grammar) implies it.
+SUB_END, SUB_FAIL = {}, {}
+ENCS = z3.Function("decoded_header_stream", Stream, I, Stream)       # the stream _parse_encoded_header installs (Trust: decode)
+SUB_FIELDS = ("_pack_positions", "_pack_sizes", "_folders", "_file_sizes", "_files", "_folder_to_files", "_empty_file_indices")
+
+
+def sub_end(name):
+    if name not in SUB_END:
+        SUB_END[name] = z3.Function(f"end_of{name}", Stream, I, I)
+        SUB_FAIL[name] = z3.Function(f"{name.lstrip('_')}_refuses", Stream, I, B)
+    return SUB_END[name], SUB_FAIL[name]
+
+
+def sub_frame(name, new_stream=False):
+    def frame(ex, st, ctx):
+        s = stream_of(ctx, st)
+        p = common.bytesio_pos(st, s)
+        st.ghost["subparsers"] = st.ghost.get("subparsers", ()) + ((name, s.t, p),)
+        w = st.wobj(ctx.args["self"].ref)
+        w.data = dict(w.data)
+        for k in SUB_FIELDS:
+            if k in w.data:
+                w.data[k] = VUnk(k)
+        if new_stream:
+            ns = VExt("Stream7z", ENCS(s.t, p))
+            w.data["_stream"] = ns
+            st.ghost[common.pos_key(ns)] = z3.IntVal(0)
+            st.assume(SLEN(ns.t) >= 0)
+        else:
+            common.havoc_pos(ex, st, s)
+    return frame
+
+
+def sub_view(name, new_stream=False, note=""):
+    END, FAIL = sub_end(name)
+
+    def S0(c):
+        return stream_of(c).t
+    ens = [("returns-only-if-the-section-is-accepted", lambda c: z3.Not(FAIL(S0(c), pos0(c))))]
+    if not new_stream:
+        ens.append(("stream-left-at-the-end-of-the-section", lambda c: pos1(c) == END(S0(c), pos0(c))))
+    return FnContract(target=f"{RD}.{name}", assumed=True, params=[("self", p_reader())], requires=req_stream, frame=sub_frame(name, new_stream),
+                      ensures=ens, raises=[Raises(BAD, sub=True, when=lambda c: FAIL(S0(c), pos0(c)))],
+                      result_maker=lambda ex, st, ctx: VUnk(f"{name}-result"),
+                      note=note or "call-site view: ghost event (name, stream, position); end position / refusal are functions of (stream, position)")
+
+
+def trace_goal(slots, evs):
+    """the recorded section-parser calls `evs` are exactly the slots whose condition holds, in slot order, each at its stream position"""
+    import itertools as _it
+    alts = []
+    for idxs in _it.combinations(range(len(slots)), len(evs)):
+        if any(slots[i][0] != evs[j][0] for j, i in enumerate(idxs)):
+            continue
+        g = []
+        for i, (_n, called, s_, p_) in enumerate(slots):
+            if i in idxs:
+                ev = evs[idxs.index(i)]
+                g += [called, ev[1] == s_, ev[2] == p_]
+            else:
+                g.append(z3.Not(called))
+        alts.append(z3.And(g + [z3.BoolVal(True)]))
+    return z3.Or(alts) if alts else z3.BoolVal(False)
+
+
+def spec_streams_info(s, p):
+    """-> (slots [(parser, called, stream, position)], end position, refused)"""
+    L = SLEN(s)
+    t, a, fails, slots = SB(s, p), p + 1, [p + 1 > L], []
+    for name, tagv, rereads in (("_parse_pack_info", 6, True), ("_parse_unpack_info", 7, True), ("_parse_substreams_info", 8, False)):
+        END, FAIL = sub_end(name)
+        c, at = t == bv(tagv), (a - 1 if rereads else a)
+        slots.append((name, c, s, at))
+        e = END(s, at)
+        fails += [z3.And(c, FAIL(s, at)), z3.And(c, e + 1 > L)]
+        t, a = z3.If(c, SB(s, e), t), z3.If(c, e + 1, a)
+    fails.append(t != bv(0))
+    return slots, a, z3.Or(fails)
+
+
+def spec_main_header(s, p):
+    """Header without an ArchiveProperties section (precondition: no writer emits one)"""
+    L = SLEN(s)
+    t, a, fails, slots = SB(s, p), p + 1, [p + 1 > L], []
+    FEND, FFAIL = sub_end("_parse_files_info")
+    sections = (("_parse_streams_info", 3, lambda q: spec_streams_info(s, q)[1], lambda q: spec_streams_info(s, q)[2]),
+                ("_parse_streams_info", 4, lambda q: spec_streams_info(s, q)[1], lambda q: spec_streams_info(s, q)[2]),
+                ("_parse_files_info", 5, lambda q: FEND(s, q), lambda q: FFAIL(s, q)))
+    for name, tagv, endf, failf in sections:
+        c = t == bv(tagv)
+        slots.append((name, c, s, a))
+        e = endf(a)
+        fails += [z3.And(c, failf(a)), z3.And(c, e + 1 > L)]
+        t, a = z3.If(c, SB(s, e), t), z3.If(c, e + 1, a)
+    fails.append(t != bv(0))
+    return slots, a, z3.Or(fails)
+
+
+def spec_end_header(s, p):
+    """-> (slots, final stream, end position, refused)"""
+    L = SLEN(s)
+    t, fails = SB(s, p), [p + 1 > L]
+    _EE, EFAIL = sub_end("_parse_encoded_header")
+    MEND, MFAIL = sub_end("_parse_main_header")
+    c_enc = t == bv(0x17)
+    s2 = ENCS(s, p + 1)
+    slots = [("_parse_encoded_header", c_enc, s, p + 1)]
+    fails += [z3.And(c_enc, EFAIL(s, p + 1)), z3.And(c_enc, 1 > SLEN(s2))]
+    t2, sx, a = z3.If(c_enc, SB(s2, 0), t), z3.If(c_enc, s2, s), z3.If(c_enc, z3.IntVal(1), p + 1)
+    c_mh = t2 == bv(1)
+    slots.append(("_parse_main_header", c_mh, sx, a))
+    fails += [z3.And(c_mh, MFAIL(sx, a)), z3.And(z3.Not(c_mh), t2 != bv(0))]
+    return slots, sx, z3.If(c_mh, MEND(sx, a), a), z3.Or(fails)
+
+
+def dispatch_contracts():
+    out = []
+
+    def S0(c):
+        return stream_of(c).t
+
+    def new_subs(c):
+        return c.st.ghost.get("subparsers", ())[len(c.entry.ghost.get("subparsers", ())):]
+
+    # call-site views of the section parsers (their own contracts, where they have one, are verified on their bodies above)
+    out.append(sub_view("_parse_pack_info", note="call-site view implied by the verified PackInfo contract above (position = end of the grammar, "
+                                                 "refusal = bad marker / short stream are functions of stream and position)"))
+    out.append(sub_view("_parse_unpack_info", note="call-site view; the function itself: BOUNDED contract (thorough tier) + native scope"))
+    out.append(sub_view("_parse_substreams_info", note="call-site view; the function itself: BOUNDED contract (thorough tier) + native scope"))
+    out.append(sub_view("_parse_files_info", note="call-site view; the function itself: BOUNDED native function-level obligation"))
+    out.append(sub_view("_parse_encoded_header", new_stream=True,
+                        note="call-site view: installs the decoded header as the new stream at position 0 (decode: Trust); not under contract itself"))
+
+    def si(c):
+        return spec_streams_info(S0(c), pos0(c))
+    out.append(FnContract(
+        target=f"{RD}._parse_streams_info", params=[("self", p_reader())], requires=req_stream, frame=sub_frame("_parse_streams_info"),
+        modifies=("self",),
+        ensures=[("section-parsers-run-at-their-sections-in-grammar-order", internal(lambda c: trace_goal(si(c)[0], new_subs(c)))),
+                 ("stream-left-after-the-END-marker", lambda c: pos1(c) == si(c)[1]),
+                 ("returns-only-if-the-StreamsInfo-grammar-accepts", lambda c: z3.Not(si(c)[2]))],
+        raises=[Raises(BAD, sub=True, when=lambda c: si(c)[2], label="a section refused / bad end marker / short stream")],
+        note="StreamsInfo grammar of 7zFormat.txt over any stream; PackInfo / UnpackInfo parsers re-read their id byte"))
+
+    def mh(c):
+        return spec_main_header(S0(c), pos0(c))
+    out.append(FnContract(
+        target=f"{RD}._parse_main_header", params=[("self", p_reader())],
+        requires=lambda c: z3.And(req_stream(c), SB(S0(c), pos0(c)) != bv(2)), frame=sub_frame("_parse_main_header"), modifies=("self",),
+        ensures=[("streams-info-and-files-info-parsed-at-their-sections-in-grammar-order", internal(lambda c: trace_goal(mh(c)[0], new_subs(c)))),
+                 ("stream-left-after-the-END-marker", lambda c: pos1(c) == mh(c)[1]),
+                 ("returns-only-if-the-Header-grammar-accepts", lambda c: z3.Not(mh(c)[2]))],
+        raises=[Raises(BAD, sub=True, when=lambda c: mh(c)[2], label="a section refused / bad end marker / short stream")],
+        note="Header grammar of 7zFormat.txt; precondition: no ArchiveProperties section (0x02; no writer emits one)"))
+    out.append(sub_view("_parse_main_header", note="call-site view for _parse_end_header; implied by the verified Header contract above when the "
+                                                   "header has no ArchiveProperties section"))
+
+    def eh(c):
+        return spec_end_header(S0(c), pos0(c))
+    out.append(FnContract(
+        target=f"{RD}._parse_end_header", params=[("self", p_reader())], requires=req_stream, modifies=("self",),
+        ensures=[("encoded-header-decoded-first-then-the-Header-parsed-from-the-resulting-stream",
+                  internal(lambda c: trace_goal(eh(c)[0], new_subs(c)))),
+                 ("stream-and-position-after-the-header", internal(lambda c: z3.And(stream_of(c, c.st).t == eh(c)[1], pos1(c) == eh(c)[2]))),
+                 ("returns-only-if-the-end-header-grammar-accepts", internal(lambda c: z3.Not(eh(c)[3])))],
+        raises=[Raises(BAD, sub=True, when=lambda c: eh(c)[3], label="a section refused / unexpected property id / short stream")],
+        note="end header: [0x17 EncodedHeader] then 0x01 Header or 0x00 (empty archive); after an encoded header the id is read from the decoded stream"))
+    return out
+
+
 # ============================================================ detection (f) ==
 # published magic numbers (PKWARE APPNOTE 4.3.7 / 4.3.16, 7zFormat.txt, RFC 1952, bzip2 "BZh", xz file format 2.1.1.1,
 # POSIX ustar header: "ustar" at offset 257)
@@ -3770,6 +3949,7 @@ def contracts(reg):
     out.extend(byte_contracts())
     out.extend(layout_contracts(reg))
     out.extend(parser_contracts())
+    out.extend(dispatch_contracts())
     out.extend(build_contracts(reg))
     out.extend(member_contracts(reg.ext_models))
     out.extend(detect_contracts())
